@@ -56,6 +56,11 @@ def _notset_outcome(p, read):
     return None
 
 
+def _is_range_of_param(it, name):
+    """it is the term of range(<parameter name>)"""
+    return it[0] == "call" and it[1] == ("builtin", "range") and len(it[2]) == 1 and it[2][0][0] == "param" and it[2][0][1] == name
+
+
 def _items(p):
     return [m for m in mux_emissions(p, roles=("down",)) if m.event is not None and m.event.kind == "Next"]
 
@@ -178,7 +183,7 @@ def rule_fw2(ctx: Ctx) -> RuleResult:
                     pay = m.event.payload
                     ok = ok and ((pay[0] == "param" and pay[1] == "value") if val == "Obj" else pay == rd[0].result)
                 loops = [e for e in p.trace if e.k == "loopiter"]
-                ok = ok and bool(loops) and loops[0].iter == ("call", ("builtin", "range"), (("param", "size", loops[0].iter[2][0][2] if loops[0].iter[2][0][0] == "param" else ""),))
+                ok = ok and bool(loops) and _is_range_of_param(loops[0].iter, "size")
                 r.ob(ok, fail(spec, kind, cfg, p, "pad_end: 'size' copies of the padding value (explicit value, else the last item) must be emitted "
                                                   "before the completion; this path: %s" % summary(p), "pad"))
     # ---- pad_start / start_with -------------------------------------------
@@ -205,6 +210,10 @@ def rule_fw2(ctx: Ctx) -> RuleResult:
                         ok = ok and ((pay[0] == "param" and pay[1] == "value") if v == "Obj" else pay == EVITEM)
                     else:
                         ok = ok and pay[0] == "loopvar"
+                if what == "pad_start" and pads:
+                    # one padding item per element of range(size): the bounded loop enumeration cannot count, the loop header can
+                    loops = [e for e in p.trace if e.k == "loopiter"]
+                    ok = ok and bool(loops) and _is_range_of_param(loops[0].iter, "size")
             else:
                 ok = last_ok and len(it) == 1 and not wr
             r.ob(ok, fail(spec, kind, cfg, p, "%s: padding must be emitted only before the first item of a key, then the item exactly once, and the key "
@@ -401,6 +410,48 @@ def rule_dp6(ctx: Ctx) -> RuleResult:
             e.k == "mutate" and e.method == "append" and e.args and e.args[0] == ITEM and (e.base == batch or batch == e.base) for e in p.trace)
         r.ob(has_item, lambda: Finding("DP-6", "%s::batch._batch{item}" % rel, m.where(accfn),
                                        "the item is not part of the batch returned on this path: %s" % show(batch), trace_of(p)))
+        # a new batch is started exactly when the previous item completed one
+        def is_acc(x, k):
+            return x[0] == "sub" and x[1] == ACC and x[2] == ("const", k)
+        prev = None
+        for e in p.trace:
+            if e.k != "decision":
+                continue
+            tt, pol = _no_epoch(e.test), e.outcome
+            while tt[0] == "not":
+                tt, pol = tt[1], not pol
+            if tt[0] == "call" and tt[1] == ("builtin", "bool") and len(tt[2]) == 1:
+                tt = tt[2][0]
+            if is_acc(tt, 1):
+                prev = pol
+            elif tt[0] == "cmp" and tt[1] in ("Is", "Eq", "IsNot", "NotEq") and (is_acc(tt[2], 1) or is_acc(tt[3], 1)):
+                other = tt[3] if is_acc(tt[2], 1) else tt[2]
+                if other[0] == "const" and isinstance(other[1], bool):
+                    prev = ((tt[1] in ("Is", "Eq")) == pol) == other[1]
+        appended = [e for e in p.trace if e.k == "mutate" and e.method == "append" and e.base == batch]
+        if prev is None:
+            r.ob(False, lambda: Finding("DP-6", "%s::batch._batch{restart}" % rel, m.where(accfn),
+                                        "the accumulator does not consult the 'batch complete' flag of the previous item: it cannot start a new batch "
+                                        "after an emitted one (returned batch: %s)" % show(batch), trace_of(p)))
+        elif prev:
+            def parts(x):
+                """elements of a list expression built from list displays and +; None for anything else"""
+                if x[0] == "list":
+                    return list(x[1:])
+                if x[0] == "binop" and x[1] == "Add":
+                    a, b = parts(x[2]), parts(x[3])
+                    return None if a is None or b is None else a + b
+                return None
+            el = parts(batch)
+            fresh = el is not None and ((el == [] and batch[0] == "list" and len(appended) == 1 and appended[0].args[0] == ITEM) or (el == [ITEM] and not appended))
+            r.ob(fresh, lambda: Finding("DP-6", "%s::batch._batch{restart}" % rel, m.where(accfn),
+                                        "after a complete (emitted) batch the next batch must be a new list holding only the item; this path returns %s "
+                                        "(appends: %s): the emitted batch keeps growing / items are emitted twice" % (show(batch), [e.brief() for e in appended]), trace_of(p)))
+        else:
+            cont = any(is_acc(x, 0) for x in subterms(batch)) and (any(x == ITEM for x in subterms(batch)) or (len(appended) == 1 and appended[0].args[0] == ITEM))
+            r.ob(cont, lambda: Finding("DP-6", "%s::batch._batch{restart}" % rel, m.where(accfn),
+                                       "while the pending batch is incomplete the item must be added to it (once); this path returns %s (appends: %s): "
+                                       "pending items are lost" % (show(batch), [e.brief() for e in appended]), trace_of(p)))
     tparams = m.scopes[termfn].params
     TACC = ("arg", tparams[0])
     A0, A1 = ("sub", TACC, ("const", 0)), ("sub", TACC, ("const", 1))
@@ -671,4 +722,53 @@ def rule_so1(ctx: Ctx) -> RuleResult:
     return r
 
 
-RULES = [rule_fw2, rule_dp6, rule_dp8, rule_so1]
+def rule_opt1(ctx: Ctx) -> RuleResult:
+    """An optional padding value is told from 'not given' by identity with None only: an explicit falsy value (0, '', False, 0.0)
+    pads like any other explicit value.  The handlers are re-run with the parameter bound to an abstract value that is not None,
+    not True / False and whose truth value is False; every path must do what it does for an ordinary explicit value."""
+    r = RuleResult("OPT-1", "pad_start / pad_end: an explicit falsy padding value (0, '', False) pads exactly like any other explicit value")
+    from ..model import valuations
+    for rel, suffix in (("rxsci/data/pad.py", "pad_start_mux._pad_start_mux.on_subscribe"),
+                        ("rxsci/data/pad.py", "pad_end_mux._pad_end_mux.on_subscribe")):
+        site, spec = _spec(ctx, rel, suffix)
+        r.instances += 1
+        space = ctx.space(spec)
+        # the value parameters: optional ones that reach an emitted payload and are never called
+        data, called = set(), set()
+        for kind in ("Next", "Completed"):
+            for cfg in valuations(space):
+                for p in ctx.paths(spec, kind, cfg):
+                    for e in p.trace:
+                        if e.k == "ucall":
+                            called.add(e.name)
+                        if e.k == "emit" and e.arg is not None:
+                            data |= {x[1] for x in subterms(e.arg) if x[0] == "param"}
+        params = sorted(k for k, v in space.items() if "None" in v and "Obj" in v and k in data and k not in called)
+        if not params:
+            raise AnalysisError("OPT-1: %s: no optional value parameter reaches an emission (the padding value was found there by reading)" % spec.qualname)
+        for prm in params:
+            for kind in ("Next", "Completed"):
+                for cfg in valuations(space):
+                    if cfg.get(prm) != "Obj":
+                        continue
+                    falsy = dict(cfg)
+                    falsy[prm] = "Falsy"
+                    want = sorted("\n".join(p.render()) for p in ctx.paths(spec, kind, cfg))
+                    got_paths = ctx.paths(spec, kind, falsy)
+                    got = sorted("\n".join(p.render()) for p in got_paths)
+                    r.paths += len(got_paths)
+                    r.groups.add((suffix.split(".")[0], prm, kind))
+                    ok = want == got
+                    def f(kind=kind, cfg=falsy, got_paths=got_paths, want=want, prm=prm):
+                        bad = [p for p in got_paths if "\n".join(p.render()) not in want] or got_paths
+                        return mk_finding("OPT-1", spec, kind, cfg, bad[0],
+                                          "%s: with %s bound to an explicit falsy value (0, '', False) the handler does not do what it does for another "
+                                          "explicit value: the parameter is tested for truth (or equality) where only 'is None' tells 'not given'; "
+                                          "falsy: %s / explicit: %s" % (suffix.split(".")[0], prm, summary(bad[0]), want[0].splitlines()[-3:] if want else "-"),
+                                          extra="falsy-" + prm)
+                    r.ob(ok, f)
+    r.require_instances(2)
+    return r
+
+
+RULES = [rule_fw2, rule_dp6, rule_dp8, rule_so1, rule_opt1]
